@@ -400,6 +400,29 @@ CLAIMS = {
         'technique': 'must-pass-through + definite assignment + table '
                      'agreement + per-version wire-schema extraction (ast)',
     },
+    'C15': {
+        'text': 'Decides codec symmetry for keys: for each of the eight key '
+                'classes the SSH public / private encoders and decoders are '
+                'reduced to typed, named field lists that must agree in '
+                'types and (where names are shared) in order, and the tuple a '
+                'decoder returns must be unpacked in that order by make_* — '
+                'this catches a writer/reader pair changed symmetrically; '
+                'PKCS#1 private field order ↔ make_private; the OpenSSH '
+                'private container and inner block are written and read in '
+                'the same order; every exported PEM / RFC 4716 label has an '
+                'import route; PBE registrations fill both maps; the RFC '
+                '4716 header/body test applies to the continuation-joined '
+                'header; the PKCS#12 KDF block helper is evaluated for '
+                'len <= 3v (v·⌈len/v⌉ bytes of repeated data, RFC 7292 B.2; '
+                'bounded, not exhaustive); a wrong passphrase is an error '
+                '(check words, AEAD result, RFC 1423 padding, PKCS#8).',
+        'note': TB + 'not decided: equality of keys after a round trip, '
+                'interop with OpenSSH / PyCA (external oracle), KDF '
+                'arithmetic beyond the block-padding shape.',
+        'technique': 'typed+named field-list extraction and comparison '
+                     '(writer ↔ reader ↔ constructor) + CFG guard-dominance '
+                     '+ bounded abstract evaluation (ast)',
+    },
 }
 
 PENDING = 'check not built yet in this session (planned, see DESIGN.md section 5)'
